@@ -183,6 +183,17 @@ func (e *Engine) RunPath(pkg *ssa.Package, fnName string, prefix []int64) (res P
 		}
 	}
 	e.S.Pop()
+	if len(hookPasses) > 0 {
+		for k := range p.Obls {
+			if p.Obls[k].Status == "violated" || p.Obls[k].Status == "known" {
+				hp := map[string][]int{}
+				for n, v := range hookPasses {
+					hp[n] = append([]int(nil), v...)
+				}
+				p.Obls[k].HookPlan = hp
+			}
+		}
+	}
 	res.Taken = p.Taken
 	res.Pending = p.Pending
 	res.Obligations = p.Obls
